@@ -8,7 +8,7 @@ open Mfi Mfi.Bank Mfi.Ix
 /-- `ix.<dep|wd|bor|rep> <bank 16> <last_update> <ir 23> <has position> <position 6> now amount flag tfBps tfMax origFee progFeeRate`
      →  `ok <bank 16> <last_update> <has position> <position 6> <tokens>` -/
 def ixOp (op : String) (a : List Int) : Option String :=
-  if !op.startsWith "ix." || op == "ix.liq" || op == "ix.bkr" then none else
+  if !op.startsWith "ix." || op == "ix.liq" || op == "ix.bkr" || op == "ix.closebank" then none else
   match parseBank a with
   | none => some "bad-args"
   | some (b0, last :: rest) =>
@@ -26,6 +26,7 @@ def ixOp (op : String) (a : List Int) : Option String :=
           | "ix.bor" => some (borrow e b bal amount)
           | "ix.rep" => some (repay e b bal amount (s2b flag))
           | "ix.close" => some (Ix.closeBalance e b bal)
+          | "ix.purge" => some (Ix.purge b bal)
           | _ => none
         match r with
         | none => some "bad-op"
@@ -77,6 +78,13 @@ def bkrIxOp (op : String) (a : List Int) : Option String :=
           s!"{showBank o.bank} {o.bank.lastUpdate} {showBal o.bal} {o.coveredUp} {if o.kill then 1 else 0}"))
       | _ => some "bad-args"
     | none => some "bad-args"
+  | _ => some "bad-args"
+
+/-- `ix.closebank <bank 16>` → `ok` | `err 6078` -/
+def closeBankOp (op : String) (a : List Int) : Option String :=
+  if op != "ix.closebank" then none else
+  match parseBank a with
+  | some (b, []) => some (showResB ((Ix.closeBank b).map fun _ => ""))
   | _ => some "bad-args"
 
 end Mfi.Driver
